@@ -10,6 +10,8 @@ import (
 	"math/rand"
 	"os"
 	"path/filepath"
+	"regexp"
+	"runtime/debug"
 	"sort"
 	"strings"
 	"time"
@@ -120,7 +122,25 @@ type Outcome struct {
 	Err      error
 	Panicked bool
 	PanicVal string
+	PanicSite string // first genqlient function on the panicking stack
 	TimedOut bool
+}
+
+var siteRe = regexp.MustCompile(`github\.com/Khan/genqlient/generate\.(?:\(\*?\w+\)\.)?(\w+)`)
+
+func panicSite(stack string) string {
+	// skip the frames of the recover machinery: take the first genqlient frame after "panic("
+	i := strings.Index(stack, "panic(")
+	if i >= 0 {
+		stack = stack[i:]
+	}
+	if m := siteRe.FindStringSubmatch(stack); m != nil {
+		return m[1]
+	}
+	if j := strings.Index(stack, "github.com/vektah/gqlparser"); j >= 0 {
+		return "gqlparser"
+	}
+	return "unknown"
 }
 
 // RunGenerate lays the program out under dir and calls generate.Generate with
@@ -158,6 +178,7 @@ func RunConfig(cfg *generate.Config) *Outcome {
 			if v := recover(); v != nil {
 				o.Panicked = true
 				o.PanicVal = fmt.Sprint(v)
+				o.PanicSite = panicSite(string(debug.Stack()))
 			}
 			ch <- o
 		}()
